@@ -499,7 +499,23 @@ def w_maps(W, s, z, lmbda, dims, mnl=0):
                         d = max(d, abs(a[off + j * m + i] - b[off + j * m + i]))
         return d
     nl = max([abs(t) for t in lam] + [1e-300])
-    return {'Wz-lambda': lowdiff(Wz, lam) / nl, 'WiTs-lambda': lowdiff(Wis, lam) / nl}
+    # errors are measured relative to the norms of the factors: ||W|| ||z|| resp. ||W^-1|| ||s||
+    nW, nWi = [1e-300], [1e-300]
+    for k in ('dnl', 'd'):
+        nW += [abs(t) for t in W.get(k, [])]
+    for k in ('dnli', 'di'):
+        nWi += [abs(t) for t in W.get(k, [])]
+    for k, v in enumerate(W['v']):
+        vv = 2.0 * sum(a * a for a in v)
+        nW.append(W['beta'][k] * vv)
+        nWi.append(vv / W['beta'][k])
+    for r in W['r']:
+        nW.append(sum(a * a for row in r for a in row))
+    for r in W['rti']:
+        nWi.append(sum(a * a for row in r for a in row))
+    sz = max([abs(t) for t in z] + [1e-300]) * max(nW)
+    ss = max([abs(t) for t in s] + [1e-300]) * max(nWi)
+    return {'Wz-lambda': lowdiff(Wz, lam) / max(nl, sz), 'WiTs-lambda': lowdiff(Wis, lam) / max(nl, ss)}
 
 
 # ---------------------------------------------------------------- interior points
